@@ -55,8 +55,9 @@ Proof.
     { exists []. rewrite app_nil_r. split; [reflexivity | apply Rem_nil]. }
     destruct (gs_exec s) as [|k0 ks] eqn:Ex.
     { exists []. rewrite app_nil_r. split; [reflexivity | apply Rem_nil]. }
-    match goal with |- context [pass cs (k0 :: ks) ?q] => destruct (pass_rem cs (k0 :: ks) q) as [new [P1 P2]];
-      set (pp := pass cs (k0 :: ks) q) in * end.
+    match goal with |- context [pass cs (k0 :: ks) ?q] =>
+      pose proof (pass_rem cs (k0 :: ks) q) as HP; remember (pass cs (k0 :: ks) q) as pp eqn:Epp end.
+    destruct HP as [new [P1 P2]].
     cbn [ps_result ps_g] in P1, P2.
     destruct (ps_clean pp) eqn:Ec; [destruct (ps_promote pp) eqn:Ep|].
     + exists new. cbn [gs_result gs_g]. split; assumption.
